@@ -104,6 +104,17 @@ CHECKS = {
         note='In-process crash simulation (BaseException at effect boundaries; written data assumed on disk); '
              'TensorBoard summaries stubbed; harness-supplied deterministic algorithm/eval fns; TLC, JVM.',
         design='5/C09'),
+    'C12': dict(
+        technique='TLA+ spec FedRound.tla with a proximal weight model-checked by TLC; FedRoundOracle computes the exact '
+                  'FedAvg / FedProx(mu) / full-batch-step parameters for random exact-island instances; the real fed_prox, '
+                  'hyp_cluster(1), mime_lite(SGD, lr 1), apfl (global model) and mime(SGD, one step) replayed against them',
+        text='TLC proves that the proximal variant equals FedAvg on the loss augmented with the penalty toward the round\'s '
+             'parameters (penalty toward the initial parameters reported); for random instances with SGD or momentum on '
+             'clients and server, repeated participation and 1-3 rounds TLC computes the exact expected parameters and '
+             'each real algorithm with its degenerate hyper-parameters must reproduce them round after round.',
+        note='Exact island as in C01; MimeLite/Mime with plain SGD base as the property states; Mime instances give every '
+             'client with examples exactly one local step.',
+        design='5/C12'),
     'C13': dict(
         technique='TLA+ spec Sampler.tla (sample / set_round_num / fresh sampler / streaming restart) model-checked by '
                   'TLC; every enumerated history replayed on real samplers (in-memory and SQLite data, several '
